@@ -6,12 +6,27 @@ import (
 	"os"
 	"sort"
 	"strconv"
+	"strings"
+	"syscall"
 	"time"
 )
 
 var checks = map[string]func(*Ctx){}
 
 func main() {
+	// Fresh goroutines must start with the minimum stack (not with the process' running average): the stack-resident
+	// input probes (skipOnStack) need the recursion of the code under test to GROW the stack, deterministically.
+	// The setting is read by the runtime at start-up, so the process re-executes itself once with it.
+	if !strings.Contains(os.Getenv("GODEBUG"), "adaptivestackstart=") {
+		if self, err := os.Executable(); err == nil {
+			gd := os.Getenv("GODEBUG")
+			if gd != "" {
+				gd += ","
+			}
+			os.Setenv("GODEBUG", gd+"adaptivestackstart=0")
+			syscall.Exec(self, os.Args, os.Environ()) // returns only on failure: carry on without the setting
+		}
+	}
 	if len(os.Args) < 2 {
 		fmt.Println("usage: vcheck <Cxx> [--tier quick|thorough] [--replay file]")
 		os.Exit(2)
